@@ -359,3 +359,19 @@ func Norm(i, size int) (int, bool) {
 		return i, true
 	}
 }
+
+// SameRef reports whether two values are the same object (pointer identity, or
+// the same backing array and length for slice-typed collections).
+func SameRef(a, b any) bool {
+	va, vb := reflect.ValueOf(a), reflect.ValueOf(b)
+	if !va.IsValid() || !vb.IsValid() || va.Type() != vb.Type() {
+		return false
+	}
+	switch va.Kind() {
+	case reflect.Pointer, reflect.Map, reflect.Chan, reflect.Func, reflect.UnsafePointer:
+		return va.Pointer() == vb.Pointer()
+	case reflect.Slice:
+		return va.Len() == vb.Len() && (va.Len() == 0 || va.Pointer() == vb.Pointer())
+	}
+	return false
+}
